@@ -326,7 +326,39 @@ impl Cfg {
 
     // TODO move to a more appropriate place
     // TODO make better, what even is this?
-    pub fn error_ranges_for_first_usage(node: &Rc<CfgNode>, item: Register) -> Vec<RegisterToken> {
+    /// Does the code of a function read `item` before it gives it a new value?
+    /// (A register that only passes through the function is not read by it.)
+    fn reads_before_writing(entry: &Rc<CfgNode>, item: Register) -> bool {
+        let mut queue = VecDeque::new();
+        queue.extend(in_source_order(&entry.nexts()));
+        #[allow(clippy::mutable_key_type)]
+        let mut visited = HashSet::new();
+        visited.insert(Rc::clone(entry));
+        while let Some(next) = queue.pop_front() {
+            if !visited.insert(Rc::clone(&next)) {
+                continue;
+            }
+            if next.gen_reg().contains(&item) {
+                return true;
+            }
+            // A call or an ecall inside the function that takes the register
+            // as an argument reads it as well
+            if (next.calls_to().is_some() || next.is_ecall()) && next.live_in().contains(&item) {
+                return true;
+            }
+            if next.kill_reg().contains(&item) || next.is_ecall() || next.is_return() {
+                continue;
+            }
+            queue.extend(in_source_order(&next.nexts()));
+        }
+        false
+    }
+
+    pub fn error_ranges_for_first_usage(
+        &self,
+        node: &Rc<CfgNode>,
+        item: Register,
+    ) -> Vec<RegisterToken> {
         let mut queue = VecDeque::new();
         let mut ranges = Vec::new();
         // push the next nodes onto the queue
@@ -362,6 +394,19 @@ impl Cfg {
                 && Register::caller_saved_set().contains(&item)
                 && next.live_in().contains(&item)
             {
+                // A register that is live into a call because the caller reads
+                // it behind the call only passes through the callee: the read
+                // behind the call is the place, the walk goes on there
+                if let Some((func, _)) = next.calls_to_from_cfg(self) {
+                    if next.calls_to().is_some()
+                        && !Self::reads_before_writing(&func.entry(), item)
+                    {
+                        if func.exit().live_in().contains(&item) {
+                            queue.extend(in_source_order(&next.nexts()));
+                        }
+                        continue;
+                    }
+                }
                 ranges.push(With::new(
                     item,
                     Token::new(
